@@ -200,7 +200,18 @@ def aph_rankings(draw, tier="quick"):
     for k in range(n):
         ye = draw(GEN.yaws())
         yg = draw(st.one_of(GEN.yaws(), st.just(ye), st.sampled_from([ye + PI / 2, ye + PI, ye - 0.3])))
-        prs.append({"ye": ye, "yg": yg, "qse": draw(GEN.qsigns()), "qsg": draw(GEN.qsigns()), "conf": round(0.05 + 0.9 * (k + 1) / (n + 1), 6)})
+        prs.append(
+            {
+                "ye": ye,
+                "yg": yg,
+                "qse": draw(GEN.qsigns()),
+                "qsg": draw(GEN.qsigns()),
+                "conf": round(0.05 + 0.9 * (k + 1) / (n + 1), 6),
+                # a pair whose ground truth carries another label than the Ap's (reached under ALLOW_ANY): it takes a
+                # rank but is neither TP nor FP for this label
+                "other": draw(st.integers(0, 4)) == 0,
+            }
+        )
     order = draw(st.permutations(list(range(n))))
     return {"pairs": prs, "order": list(order), "frame": draw(st.sampled_from(["base_link", "map"])), "ego": draw(GEN.ego_poses()), "nested": draw(st.booleans())}
 
@@ -217,14 +228,19 @@ def aph_rankings_body(ctx, d):
     results, wref = [], []
     for k, p in enumerate(d["pairs"]):
         eo = dict(_obj(p["ye"], p["qse"], [0.0, 0.0]), p=[5.0 * k, 2.0, 0.0], score=p["conf"], uuid=f"e{k}")
-        go = dict(_obj(p["yg"], p["qsg"], [0.0, 0.0]), p=[5.0 * k + 0.1, 2.0, 0.0], uuid=f"g{k}")
+        go = dict(_obj(p["yg"], p["qsg"], [0.0, 0.0], label="pedestrian" if p.get("other") else "car"), p=[5.0 * k + 0.1, 2.0, 0.0], uuid=f"g{k}")
         r = None
         with ctx.under_test("DynamicObjectWithPerceptionResult"):
-            r = DynamicObjectWithPerceptionResult(D.obj3d(eo, frame, ego), D.obj3d(go, frame, ego), transforms=tr)
+            if p.get("other"):
+                from perception_eval.evaluation.matching.object_matching import MatchingLabelPolicy
+
+                r = DynamicObjectWithPerceptionResult(D.obj3d(eo, frame, ego), D.obj3d(go, frame, ego), MatchingLabelPolicy.ALLOW_ANY, transforms=tr)
+            else:
+                r = DynamicObjectWithPerceptionResult(D.obj3d(eo, frame, ego), D.obj3d(go, frame, ego), transforms=tr)
         if r is None:
             return
         results.append(r)
-        wref.append(1.0 - G.absdiff_angle(p["ye"], p["yg"]) / PI)
+        wref.append(0.0 if p.get("other") else 1.0 - G.absdiff_angle(p["ye"], p["yg"]) / PI)
     fed = [results[k] for k in d["order"]]
     arg = [fed[: len(fed) // 2], fed[len(fed) // 2 :]] if d["nested"] else fed
     ap = None
@@ -232,7 +248,7 @@ def aph_rankings_body(ctx, d):
         ap = Ap(
             tp_metrics=TPMetricsAph(),
             object_results=arg,
-            num_ground_truth=len(results),
+            num_ground_truth=sum(1 for p in d["pairs"] if not p.get("other")),
             target_labels=[D.label_type("car")],
             matching_mode=MatchingMode.CENTERDISTANCE,
             matching_threshold_list=[1.0],
@@ -247,6 +263,8 @@ def aph_rankings_body(ctx, d):
     got = [float(v) for v in ap.tp_list]
     ctx.cls("frame_" + frame)
     ctx.cls("nested" if d["nested"] else "flat")
+    if any(p.get("other") for p in d["pairs"]):
+        ctx.cls("with_result_of_another_label")
     ws = sorted(wref)
     ctx.mark_nontrivial(d["order"] != by_conf and ws[-1] - ws[0] > 0.05)
     ctx.require(
